@@ -183,6 +183,19 @@ func (in *Interp) renderTemplate(w *strings.Builder, t *Tmpl, f *frame) error {
 			defs[n] = append(defs[n], m[n])
 		}
 	}
+	// what a child writes outside its blocks produces no output, but its assignments, imports and macro definitions take
+	// effect (leaf first) before the layout renders, so that the blocks can use them
+	var discard strings.Builder
+	for i := 0; i < len(chain)-1; i++ {
+		for _, s := range chain[i].Body {
+			switch s.(type) {
+			case Set, Import, FromImport, Macro:
+				if err := in.exec(&discard, s, f); err != nil {
+					return err
+				}
+			}
+		}
+	}
 	saved := f.defs
 	f.defs = defs
 	err := in.execBody(w, chain[len(chain)-1].Body, f)
